@@ -10,6 +10,7 @@ import contextlib
 import itertools
 import json
 import random
+import warnings
 
 import numpy as np
 import torch
@@ -302,6 +303,25 @@ def gen_cases(rng, tier):
                 cases.append(base(strat, dist, m=rng.randint(2, 3), n=nn, T=T,
                                   Q=rng.randint(1, 3), zbatch=rng.random() < 0.5, kbatch=rng.random() < 0.5,
                                   ti=[(t0 + i * st) % T for i in range(nn)]))
+        # BATCHES of multitask models: variational parameters of batch shape [2, Q] (LMC) / [2, T] (independent
+        # multitask): per-model mixing coefficients, kernels / inducing points batched or shared; q(f) and
+        # kl_divergence() of every batch element against the closed form of that element
+        for strat in ("lmc", "imt"):
+            for dist in (DISTS if big else rng.sample(DISTS, 3)):
+                T = 2
+                nn = 2
+                cases.append(base(strat, dist, m=2, n=nn, T=T, Q=rng.randint(1, 2) if strat == "lmc" else T, mtbatch=2,
+                                  zbatch=rng.random() < 0.5, kbatch=rng.random() < 0.5,
+                                  ti=[rng.randrange(T) for _ in range(nn)]))
+        # legacy checkpoints: a state dict WITHOUT the `updated_strategy` flag holds the parameters of an UNWHITENED
+        # q(u) = N(m, S); VariationalStrategy converts them on the first call after loading.  The first call is made in
+        # eval mode, in train mode, or in eval mode on a model object that was already evaluated with other parameters;
+        # compared with the unwhitened closed form of the ORIGINAL (m, S)
+        for k, first in enumerate(("eval", "train", "evaluated-eval")):
+            for dist in (("cholesky", "natural", "trilnatural") if big else
+                         ("cholesky", ("natural", "trilnatural", "cholesky")[(k + rep) % 3])):
+                cases.append(base("vs", dist, family="legacy", first=first, m=rng.randint(2, 3), n=2,
+                                  batch=rng.choice(["none", "none", "params", "model"])))
         # q(u) = p(u): q(f) must be the prior, KL = 0
         for strat in ("vs", "unwh", "ciq"):
             for dist in ("cholesky", "natural", "trilnatural") + (("meanfield",) if strat != "unwh" else ()):
@@ -332,8 +352,9 @@ def build(case):
     xb = [nb] if bp in ("x", "both") else []
     if strat in ("lmc", "imt"):
         Q = case["Q"] if strat == "lmc" else case["T"]
-        pb = [Q]
-        mb = [Q] if case.get("kbatch") else []
+        lead = [case["mtbatch"]] if case.get("mtbatch") else []
+        pb = lead + [Q]
+        mb = lead + [Q] if case.get("kbatch") else []
     if strat == "bdec" and bp == "hypers":
         mb = [2]
     kern = make_kernel(case["kernel"], d, mb, rng)
@@ -350,7 +371,9 @@ def build(case):
     Z2 = torch.tensor(allpts[m + n + case.get("g", 0):])     # second inducing set (batch-decoupled)
     if bp in ("model", "both") or (strat in ("lmc", "imt") and case.get("zbatch")):
         zb = mb if bp in ("model", "both") else pb
-        Z = torch.stack([Z + 0.125 * k for k in range(zb[0])])
+        Z = torch.stack([Z + 0.125 * k for k in range(zb[-1])])
+        if len(zb) == 2:
+            Z = torch.stack([Z + 0.0625 * k for k in range(zb[0])])
     if xb:
         X = torch.stack([X + 0.0625 * k for k in range(nb)])
     vd = make_dist(dist, m, pb)
@@ -396,7 +419,8 @@ def build(case):
                 torch.tensor([dy(rng, -1, 1) for _ in range(Zg.size(-2))]))
         if strat == "lmc":
             vs.lmc_coefficients.copy_(torch.tensor([[dy(rng, -1.5, 1.5, 8) for _ in range(case["T"])]
-                                                    for _ in range(case["Q"])]))
+                                                    for _ in range(vs.lmc_coefficients.numel() // case["T"])])
+                                      .reshape(vs.lmc_coefficients.shape))
         if strat == "grid" and d == 1:
             g = vs.grid[:, 0]
             nodes = sorted(rng.sample(range(2, m - 2 + 1), min(n, m - 3))) if m - 3 >= 1 else [2]
@@ -589,7 +613,7 @@ def impl_outputs(b, variant=None, modes=("eval", "train"), toggle=True):
                         r["ti_cov"] = o2.covariance_matrix.detach().clone()
                 except Exception as e:  # noqa: BLE001
                     r["ti_exc"] = "%s: %s" % (type(e).__name__, e)
-            if mode == "eval" and not (b.case["strat"] == "ciq" and b.case["dist"] == "natural"):
+            if mode == "eval" and b.case["family"] != "legacy" and not (b.case["strat"] == "ciq" and b.case["dist"] == "natural"):
                 q = base_strategy(b).variational_distribution
                 r["qmean"] = q.mean.detach().clone()
                 if b.case["dist"] != "delta":
@@ -654,6 +678,50 @@ def impl_history(b, hist, rng):
     return res
 
 
+def legacy_load(out, b):
+    """make b.model a model that has just loaded a checkpoint written before VariationalStrategy was whitened: the
+    state dict of the built model (its variational parameters are then read as those of an UNWHITENED q(u) = N(m, S))
+    without the `updated_strategy` entry - the recipe of the repository's test_loading_old_model - is loaded into the
+    model object after that object was given other parameters and put into the mode of the case's `first` call
+    ("evaluated-eval": additionally evaluated once, q(f) + KL, so that every memoised piece is populated)"""
+    case = b.case
+    sd = {k: v.detach().clone() for k, v in b.model.state_dict().items()}
+    flags = [k for k in sd if k.endswith("updated_strategy")]
+    if not flags:
+        out.fail("harness:legacy:no-flag-in-state-dict", "state dict of a VariationalStrategy model has no updated_strategy entry",
+                 short(case), no_input=True)
+    for k in flags:
+        del sd[k]
+    other_parameters(b, random.Random(case["hseed"] * 17 + 5))
+    first = case["first"]
+    if first == "train":
+        b.model.train()
+    else:
+        b.model.eval()
+    if first == "evaluated-eval":
+        with torch.no_grad(), tight():
+            o = b.model(b.X); o.covariance_matrix
+            b.vs.kl_divergence()
+    with warnings.catch_warnings(record=True) as ws:
+        warnings.simplefilter("always")
+        b.model.load_state_dict(sd)
+    from gpytorch.utils.warnings import OldVersionWarning
+    if not any(issubclass(w.category, OldVersionWarning) for w in ws):
+        out.fail("legacy:no-old-version-warning", "loading a state dict without `updated_strategy` raised no OldVersionWarning",
+                 short(case))
+
+
+def impl_legacy(b):
+    """first call after loading in the mode of the case (no mode toggle before it), then the other mode"""
+    if b.case["first"] == "train":
+        res = impl_outputs(b, modes=("train",), toggle=False)
+        res.update(impl_outputs(b, modes=("eval",)))
+    else:
+        res = impl_outputs(b, modes=("eval",), toggle=False)
+        res.update(impl_outputs(b, modes=("train",)))
+    return res
+
+
 def sqrtm_sym(A):
     w, Vv = np.linalg.eigh(A)
     return (Vv * np.sqrt(w)) @ Vv.T
@@ -693,7 +761,12 @@ def plan(b, mode):
             pidx = bi  # parameters broadcast over x batch: dist_params wraps modulo
         p1, p2 = dist_params(b.dist, dist, pidx)
         Kzz = [[Kb[i][j] + (jit if i == j else 0.0) for j in range(m)] for i in range(m)]
-        if strat in ("vs", "lmc", "imt"):
+        if case["family"] == "legacy":
+            # the loaded parameters are those of an UNWHITENED q(u) = N(m, S): unwhitened closed form with the
+            # strategy's jitter on K_zz (predictive and prior of the KL) and on K_xx
+            out.append(("run_c14", coq_term(0, m, n, 0, Kb, mub, (jit, jit, jit), kind, p1, p2, [[0.0]], [], []),
+                        dict(bi=bi)))
+        elif strat in ("vs", "lmc", "imt"):
             out.append(("run_c14", coq_term(1, m, n, 0, Kb, mub, (jit, jit, 0.0), kind, p1, p2, root_of(b, Kzz), [], []),
                         dict(bi=bi)))
             if case["family"] == "crossform":
@@ -768,7 +841,8 @@ def bsel(t, bshape, bi, ev):
 
 
 def short(case):
-    return {k: case[k] for k in ("strat", "dist", "m", "n", "d", "kernel", "mean", "batch", "family", "hseed", "jset", "raw") if k in case}
+    return {k: case[k] for k in ("strat", "dist", "m", "n", "d", "kernel", "mean", "batch", "family", "hseed", "jset", "raw",
+                                 "first", "mtbatch") if k in case}
 
 
 def compare_plain(out, b, impl, dec_by_mode, variant=None):
@@ -921,7 +995,13 @@ def run(out, ctx):
                 "parameters (fresh q(u), shifted hyper-parameters / mean / mixing coefficients, translated inducing points): "
                 "histories eval -> load_state_dict(parameters) -> eval without leaving eval mode, and eval -> train -> in-place "
                 "parameter assignment -> eval; the outputs are compared with the closed form at the parameters in force. "
-                "non-trivial = q(u) != p(u)")
+                "BATCHES of multitask models (LMC / independent multitask with variational batch shape [2, Q] / [2, T], per-model "
+                "mixing coefficients): q(f), task_indices mode and kl_divergence() per model of the batch.  Legacy checkpoints: a "
+                "state dict without the `updated_strategy` flag (parameters of an unwhitened q(u) = N(m, S); Cholesky / Natural / "
+                "TrilNatural, unbatched and batched) loaded into a whitened VariationalStrategy model holding other parameters, "
+                "first call in eval mode / in train mode / in eval mode on an already evaluated object: mean, full covariance "
+                "and KL against the unwhitened closed form of the original (m, S), then the settings variants and histories on "
+                "the converted model.  non-trivial = q(u) != p(u)")
     out.extra["tolerances"] = dict(TOL, kl="same as strategy", qu_moments=1e-8,
                                    settings_variants="same as default settings; unwhitened CG path (max_cholesky_size(0)): "
                                    "1e-5 x cond(Kzz + jitter), cond <= %g, KL not compared (stochastic log-determinant)" % CG_MAX_COND)
@@ -945,6 +1025,15 @@ def run(out, ctx):
                 except Exception as e:  # noqa: BLE001
                     out.fail("harness:set-prior", "could not set q(u)=p(u): %r" % e, short(case), no_input=True)
                     continue
+            if case["family"] == "legacy":
+                try:
+                    legacy_load(out, b)
+                except Exception as e:  # noqa: BLE001
+                    import traceback
+                    out.fail("impl-exception:legacy-load:%s:%s" % (case["dist"], type(e).__name__),
+                             "loading a state dict without the updated_strategy flag raised %r\n%s" % (e, traceback.format_exc()[-600:]),
+                             short(case))
+                    continue
             b.slots = {}
             try:
                 for mode in ("eval", "train"):
@@ -959,7 +1048,7 @@ def run(out, ctx):
                         else:
                             b.slots[mode].append((fn, len(jobs[fn])))
                         jobs[fn].append(term)
-                b.impl = impl_outputs(b)
+                b.impl = impl_legacy(b) if case["family"] == "legacy" else impl_outputs(b)
                 b.impl_var = {}
                 if not ctx.get("only_variant_free"):
                     _tv = _t.time()
@@ -1031,10 +1120,17 @@ def run(out, ctx):
         out.case(short(case), nontrivial, label="strat=%s" % strat)
         out.count("dist=" + case["dist"]); out.count("batch=" + case.get("batch", "none")); out.count("m=%d" % m)
         out.count("family=" + case["family"])
+        if case["family"] == "legacy":
+            out.count("legacy:first-call=%s:%s:batch=%s" % (case["first"], case["dist"], case.get("batch", "none")))
         if strat in ("lmc", "imt"):
             b.dec = dec_by_mode
-            mt_jobs.append(mt_term(b, dec_by_mode["eval"]))
-            mt_meta.append(b)
+            nb = case.get("mtbatch") or 1
+            Q = len(dec_by_mode["eval"]) // nb
+            if case.get("mtbatch"):
+                out.count("multitask-batch:%s:models=%d:latents=%d" % (strat, nb, Q))
+            for k in range(nb):          # one mixing job per model of the batch
+                mt_jobs.append(mt_term(b, dec_by_mode["eval"][k * Q:(k + 1) * Q], k if case.get("mtbatch") else None))
+            mt_meta.append((b, nb))
             continue
         compare_plain(out, b, b.impl, dec_by_mode)
         for vname, impl_v in b.impl_var.items():
@@ -1046,7 +1142,10 @@ def run(out, ctx):
     if mt_jobs:
         r2 = C.coq_run_cases("C14_mt", IMPORTS, "Definition run := run_c14_mt.", mt_jobs,
                              shard=max(1, (len(mt_jobs) + 3) // 4))
-        for b, r in zip(mt_meta, r2):
+        pos = 0
+        for b, nb in mt_meta:
+            r = r2[pos:pos + nb]
+            pos += nb
             compare_mt(out, b, r)
             for vname, impl_v in b.impl_var.items():
                 out.case(dict(short(b.case), settings=vname), True, label="settings=%s" % vname)
@@ -1080,15 +1179,17 @@ def set_prior(b):
         raise RuntimeError("distribution cannot represent the prior")
 
 
-def mt_term(b, decs):
-    """second-stage Coq case: mix the (Coq-computed, exact) latent q(f_q)"""
+def mt_term(b, decs, bm=None):
+    """second-stage Coq case: mix the (Coq-computed, exact) latent q(f_q); bm: index of the model in a batch of
+    multitask models (its own mixing coefficients and latents)"""
     case = b.case
     n, T = case["n"], case["T"]
     Q = len(decs)
     mus = "[" + "; ".join(C.qc_vec(d["mean"]) if d else "[]" for d in decs) + "]"
     cs = "[" + "; ".join(C.qc_mat(d["cov"]) if d else "[]" for d in decs) + "]"
     if case["strat"] == "lmc":
-        a = b.vs.lmc_coefficients.detach().tolist()
+        a = b.vs.lmc_coefficients.detach()
+        a = (a[bm] if bm is not None else a).tolist()
         aterm = "(Some %s)" % C.qc_mat(a)
         j = float(b.vs.jitter_val)
     else:
@@ -1097,7 +1198,9 @@ def mt_term(b, decs):
     return "(%d%%nat, %d%%nat, %d%%nat, %s, %s, %s, %s)" % (Q, T, n, aterm, mus, cs, C.qc_lit(j))
 
 
-def compare_mt(out, b, r, impl=None, variant=None):
+def compare_mt(out, b, rs, impl=None, variant=None):
+    """rs: one model result (run_c14_mt) per model of the batch (a single one for an unbatched multitask model); the
+    implementation's outputs then carry one leading batch dimension and element k is compared with result k"""
     impl = b.impl if impl is None else impl
     tol = 1e-8
     case = b.case
@@ -1108,53 +1211,85 @@ def compare_mt(out, b, r, impl=None, variant=None):
     if any(d is None for d in decs):
         out.fail("model:rejects:%s" % tag, "the model could not evaluate a latent case", desc)
         return
-    rd = C.Reader(r)
-    mean = rd.qs(n * T)
-    cov = rd.qmat(n * T, n * T)
+    nb = len(rs)
+    batched = bool(case.get("mtbatch"))
+    Q = len(decs) // nb
+    bt = ":model-batch" if batched else ""
+
+    def sel(t, ev):
+        """element k of the leading model-batch dimension; None when the shape is not [nb] + event shape"""
+        if not batched:
+            return [t] if t.dim() == ev else None
+        if t.dim() != ev + 1 or t.shape[0] != nb:
+            return None
+        return [t[k] for k in range(nb)]
     for mode in ("eval", "train"):
         ri = impl[mode]
-        e = maxdiff(ri["mean"].reshape(-1), mean)     # [n, T] row-major = interleaved
-        if e > tol:
-            out.fail("mean:%s:%s" % (tag, mode), "multitask mean differs from the mixed latent means by %.3g" % e, desc,
-                     impl=ri["mean"].tolist(), model=[float(v) for v in mean])
-        e = maxdiff(ri["var"].reshape(-1), [cov[i][i] for i in range(n * T)])
-        if e > tol:
-            out.fail("var:%s:%s" % (tag, mode), "multitask variance differs from the mixed latent covariances by %.3g"
-                     % e, desc)
-        if mode == "eval":
-            e = maxdiff(ri["cov"], cov)
+        shapes_ok = True
+        for name, ev in (("mean", 2), ("var", 2)) + ((("cov", 2),) if mode == "eval" else ()):
+            if sel(ri[name], ev) is None:
+                shapes_ok = False
+                out.fail("shape:%s:%s:%s%s" % (name, tag, mode, bt), "multitask %s has shape %s for %d model(s), %d inputs, %d tasks"
+                         % (name, list(ri[name].shape), nb, n, T), desc)
+        for k in range(nb if shapes_ok else 0):
+            rd = C.Reader(rs[k])
+            mean = rd.qs(n * T)
+            cov = rd.qmat(n * T, n * T)
+            e = maxdiff(sel(ri["mean"], 2)[k].reshape(-1), mean)     # [n, T] row-major = interleaved
             if e > tol:
-                out.fail("cov:%s:eval" % tag, "multitask covariance differs from sum_q a_q a_q^T (x) C_q by %.3g" % e,
-                         desc, impl=ri["cov"].tolist(), model=[[float(v) for v in row] for row in cov])
-        # task_indices mode: input i on task ti[i] = the marginal of the all-tasks joint at rows i*T + ti[i]
-        idx = [i * T + t for i, t in enumerate(case["ti"])]
-        if "ti_exc" in ri:
-            out.fail("task-indices-exception:%s:%s" % (tag, mode), "model(X, task_indices=...) raised %s" % ri["ti_exc"],
-                     desc)
-        else:
-            e = maxdiff(ri["ti_mean"], [mean[p] for p in idx])
+                out.fail("mean:%s:%s%s" % (tag, mode, bt), "multitask mean differs from the mixed latent means by %.3g" % e, dict(desc, model_index=k),
+                         impl=sel(ri["mean"], 2)[k].tolist(), model=[float(v) for v in mean])
+            e = maxdiff(sel(ri["var"], 2)[k].reshape(-1), [cov[i][i] for i in range(n * T)])
             if e > tol:
-                out.fail("task-indices:mean:%s:%s" % (tag, mode), "one-task-per-input mean differs from the marginal of "
-                         "the all-tasks q(f) at (x_i, task_i) by %.3g" % e, desc, impl=ri["ti_mean"].tolist(),
-                         model=[float(mean[p]) for p in idx])
-            e = maxdiff(ri["ti_var"], [cov[p][p] for p in idx])
-            if e > tol:
-                out.fail("task-indices:var:%s:%s" % (tag, mode), "one-task-per-input variance differs from the marginal "
-                         "of the all-tasks q(f) by %.3g" % e, desc)
+                out.fail("var:%s:%s%s" % (tag, mode, bt), "multitask variance differs from the mixed latent covariances by %.3g"
+                         % e, dict(desc, model_index=k))
             if mode == "eval":
-                e = maxdiff(ri["ti_cov"], [[cov[p][q] for q in idx] for p in idx])
+                e = maxdiff(sel(ri["cov"], 2)[k], cov)
                 if e > tol:
-                    out.fail("task-indices:cov:%s:eval" % tag, "one-task-per-input covariance differs from the marginal "
-                             "of the all-tasks q(f) at rows i*T + task_i by %.3g" % e, desc,
-                             impl=ri["ti_cov"].tolist(), model=[[float(cov[p][q]) for q in idx] for p in idx])
-        want = float(sum(d["kl"] for d in decs))
+                    out.fail("cov:%s:eval%s" % (tag, bt), "multitask covariance differs from sum_q a_q a_q^T (x) C_q by %.3g" % e,
+                             dict(desc, model_index=k), impl=sel(ri["cov"], 2)[k].tolist(), model=[[float(v) for v in row] for row in cov])
+            # task_indices mode: input i on task ti[i] = the marginal of the all-tasks joint at rows i*T + ti[i]
+            idx = [i * T + t for i, t in enumerate(case["ti"])]
+            if "ti_exc" in ri:
+                if k == 0:
+                    out.fail("task-indices-exception:%s:%s%s" % (tag, mode, bt), "model(X, task_indices=...) raised %s" % ri["ti_exc"],
+                             desc)
+                continue
+            tm, tv = sel(ri["ti_mean"], 1), sel(ri["ti_var"], 1)
+            tc = sel(ri["ti_cov"], 2) if mode == "eval" else []
+            if tm is None or tv is None or tc is None:
+                if k == 0:
+                    out.fail("task-indices:shape:%s:%s%s" % (tag, mode, bt), "one-task-per-input output has mean shape %s for %d "
+                             "model(s) and %d inputs" % (list(ri["ti_mean"].shape), nb, n), desc)
+                continue
+            e = maxdiff(tm[k], [mean[p] for p in idx])
+            if e > tol:
+                out.fail("task-indices:mean:%s:%s%s" % (tag, mode, bt), "one-task-per-input mean differs from the marginal of "
+                         "the all-tasks q(f) at (x_i, task_i) by %.3g" % e, dict(desc, model_index=k), impl=tm[k].tolist(),
+                         model=[float(mean[p]) for p in idx])
+            e = maxdiff(tv[k], [cov[p][p] for p in idx])
+            if e > tol:
+                out.fail("task-indices:var:%s:%s%s" % (tag, mode, bt), "one-task-per-input variance differs from the marginal "
+                         "of the all-tasks q(f) by %.3g" % e, dict(desc, model_index=k))
+            if mode == "eval":
+                e = maxdiff(tc[k], [[cov[p][q] for q in idx] for p in idx])
+                if e > tol:
+                    out.fail("task-indices:cov:%s:eval%s" % (tag, bt), "one-task-per-input covariance differs from the marginal "
+                             "of the all-tasks q(f) at rows i*T + task_i by %.3g" % e, dict(desc, model_index=k),
+                             impl=tc[k].tolist(), model=[[float(cov[p][q]) for q in idx] for p in idx])
+        # KL: one value per model = the sum of the KLs of that model's latents
+        want = [float(sum(d["kl"] for d in decs[k * Q:(k + 1) * Q])) for k in range(nb)]
         if variant in VARIANT_SKIP_KL:
             pass
         elif "kl" not in ri:
-            out.fail("kl-exception:%s:%s" % (tag, mode), "kl_divergence() raised %s" % ri.get("kl_exc"), desc)
-        elif ri["kl"].numel() != 1 or abs(float(ri["kl"]) - want) > tol * (1 + abs(want)):
-            out.fail("kl:%s:%s" % (tag, mode), "kl_divergence() = %s but the sum of latent KLs is %.10g" %
-                     (ri["kl"].tolist(), want), desc, impl=ri["kl"].tolist(), model=want)
+            out.fail("kl-exception:%s:%s%s" % (tag, mode, bt), "kl_divergence() raised %s" % ri.get("kl_exc"), desc)
+        elif (list(ri["kl"].shape) != [nb]) if batched else (ri["kl"].numel() != 1):
+            out.fail("kl-shape:%s:%s%s" % (tag, mode, bt), "kl_divergence() has shape %s (value %s) for a batch of %d multitask "
+                     "model(s); per-model sums of latent KLs are %s" % (list(ri["kl"].shape), ri["kl"].tolist(), nb, want), desc,
+                     impl=ri["kl"].tolist(), model=want)
+        elif any(abs(g - w) > tol * (1 + abs(w)) for g, w in zip(ri["kl"].reshape(-1).tolist(), want)):
+            out.fail("kl:%s:%s%s" % (tag, mode, bt), "kl_divergence() = %s but the sum of latent KLs is %s" %
+                     (ri["kl"].tolist(), want if batched else "%.10g" % want[0]), desc, impl=ri["kl"].tolist(), model=want if batched else want[0])
     # the latent q(u) moments
     q = impl["eval"]
     for bi, d in enumerate(decs):
